@@ -72,6 +72,18 @@ Fixpoint take_until_brace (ts : list token) : list token * list token :=
   | [] => ([], [])
   end.
 
+(* type_seq, decided *)
+Fixpoint type_walk (ts : list token) (depth : nat) : bool :=
+  match ts with
+  | [] => Nat.eqb depth O
+  | t :: r =>
+      if is_lbrace t || is_rbrace t then false
+      else if is_lparen t then type_walk r (S depth)
+      else if is_rparen t then match depth with O => false | S d => type_walk r d end
+      else match depth with O => type_tok t && type_next_ok t r && type_walk r O | S _ => type_walk r depth end
+  end.
+Definition type_seq_b (ts : list token) : bool := type_walk ts O.
+
 Definition is_java (l : language) : bool := match l with LJava => true | _ => false end.
 Definition is_ts (l : language) : bool := match l with LTypeScript => true | _ => false end.
 
@@ -121,7 +133,7 @@ Definition parse_head (l : language) (ts : list token) : option (head_kind * lis
                     if forallb clause_tok clause then Some (HFunc pre (base ++ a :: clause) nm_off hend, rest2) else None
                   else if is_ts l && is_operator a s_colon then
                     let '(ty, rest2) := take_until_brace (tl after) in
-                    if forallb type_tok ty then Some (HFunc pre (base ++ a :: ty) nm_off hend, rest2) else None
+                    if type_seq_b ty then Some (HFunc pre (base ++ a :: ty) nm_off hend, rest2) else None
                   else None
               | [] => None
               end
